@@ -93,6 +93,114 @@ print(hashlib.sha256(open(m.new_epw_path, "rb").read()).hexdigest(), hashlib.sha
 '''
 
 
+CHILD_CUSTOM = r'''
+import sys, os, json
+sys.path.insert(0, os.environ["UWG_REPO_"])
+sys.path.insert(0, os.environ["HARNESS_"])
+import s2_util as S
+out = {}
+for name in eval(os.environ["CFGS_"]):
+    o, m = S.run_custom(name, os.environ["OUT_"], "childc_%s.epw" % os.environ["TAG_"],
+                        simulate=(name in eval(os.environ["SIM_"])))
+    out[name] = o
+print("RESULT " + json.dumps(out))
+'''
+
+
+def custom_vector_purity(chk, work):
+    """(e) models with custom reference vectors: >= 3 new (non-DOE) types of different wall emissivity, a first
+    and a revised custom of one type + era, customs in another listing order. What generate() makes of equal
+    parameters (order of BEM / Sch, which custom stands for a repeated type + era, bit-exact digest of the generated
+    state) and what a simulation writes must not depend on the hash seed, on the addresses at which the allocator
+    puts the parameter objects, or on other models alive in the interpreter."""
+    import json
+    import s2_util as S
+    rng = chk.rng
+    uwg = U.uwg_mod()
+    quick = chk.tier == 'quick'
+    cfgs = list(S.CUSTOM_CONFIGS[:3] if quick else S.CUSTOM_CONFIGS)
+    sim_cfgs = cfgs[:1] if quick else cfgs
+    reps = 5 if quick else 16
+    bad, nruns = 0, 0
+    keep = []
+
+    def differs(name, how, got, ref):
+        nonlocal bad
+        bad += 1
+        for key in ('order', 'digest', 'records', 'epw'):
+            if key in got and key in ref and got[key] != ref[key]:
+                break
+        obs = got.get(key)
+        exp = ref.get(key)
+        if key == 'order':
+            obs = [' '.join(x[:3]) + ' e_wall=%s cop=%s' % (x[3], x[4]) for x in got['order']]
+            exp = [' '.join(x[:3]) + ' e_wall=%s cop=%s' % (x[3], x[4]) for x in ref['order']]
+        spec, extra, zone, month = S.custom_config(name)
+        chk.violation('impl-violation', 'purity with custom reference vectors: %s differs from the first fresh '
+                      'model (%s)' % (how, key),
+                      case={'configuration': name, 'customs (in listing order)': [
+                          {k: v for k, v in sp.items() if k != 'src'} for sp in spec], 'zone': zone,
+                          'bld': S.bld_for(spec, extra)},
+                      observed={key: obs}, expected={key: exp})
+
+    refs = {}
+    for name in cfgs:
+        refs[name], m0 = S.run_custom(name, work, 'cv_%s.epw' % name.replace('+', '_'), simulate=name in sim_cfgs)
+        keep.append(m0)
+        nruns += 1
+    # in one interpreter: new parameter objects every time, other allocations and other models in between
+    for r in range(reps):
+        for name in cfgs:
+            S.churn(rng, uwg, keep)
+            if rng.random() < 0.5:
+                other, mo = S.run_custom(rng.choice([c for c in S.CUSTOM_CONFIGS if c != name]), work, 'cv_o.epw')
+                if rng.random() < 0.5:
+                    keep.append(mo)
+            got, m = S.run_custom(name, work, 'cv_r.epw', simulate=(name in sim_cfgs and r == reps - 1))
+            if rng.random() < 0.4:
+                keep.append(m)
+            nruns += 1
+            if any(got[k] != refs[name][k] for k in got):
+                differs(name, 'fresh model %d in the same interpreter' % (r + 1), got, refs[name])
+    # other processes / hash seeds (started together)
+    seeds = ['0', '1', '12345'] if quick else ['0', '1', '2', '3', '12345', 'random']
+    procs = []
+    for hs in seeds:
+        env = dict(os.environ, PYTHONHASHSEED=hs, UWG_REPO_=core.REPO, UWG_REPO=core.REPO,
+                   HARNESS_=os.path.join(core.VERIF, 'harness'), CFGS_=repr(cfgs), SIM_=repr(sim_cfgs),
+                   OUT_=work, TAG_=hs, PYTHONDONTWRITEBYTECODE='1')
+        procs.append((hs, subprocess.Popen([sys.executable, '-c', CHILD_CUSTOM], stdout=subprocess.PIPE,
+                                           stderr=subprocess.PIPE, text=True, env=env)))
+    for hs, p in procs:
+        so, se = p.communicate(timeout=900)
+        line = [l for l in so.split('\n') if l.startswith('RESULT ')]
+        if p.returncode != 0 or not line:
+            if 'uwg' + os.sep in se and 'Traceback' in se:
+                bad += 1
+                chk.violation('impl-violation', 'purity with custom reference vectors: a fresh process fails',
+                              case={'PYTHONHASHSEED': hs, 'configurations': cfgs}, observed=se[-600:],
+                              expected='the same results as in this process')
+                continue
+            raise core.Infra('child process failed: ' + se[-400:])
+        res = json.loads(line[0][7:])
+        for name in cfgs:
+            nruns += 1
+            got = res[name]
+            if any(got[k] != refs[name][k] for k in got):
+                differs(name, 'process with PYTHONHASHSEED=%s' % hs, got, refs[name])
+    chk.direct('custom-vectors: fresh-models-vs-heap-layout-vs-process', nruns, nruns,
+               'parameter sets with custom reference vectors (%s): three / five new non-DOE types with wall '
+               'emissivities 0.9, 0.25, 0.6, 0.45, 0.75, a first and a revised custom of one DOE type+era and of '
+               'one new type+era, three customs of one type+era interleaved with an override, a reversed listing. '
+               'The first fresh model is compared with %d further fresh models per configuration built from NEW '
+               'parameter objects in the same interpreter after random allocations / other custom models '
+               'generated and kept alive in between (heap layout changes), and with fresh processes under '
+               'PYTHONHASHSEED %s: order of BEM (type, era, which custom, wall emissivity, cop, fraction), '
+               'bit-exact digest of the generated state; %s also simulated 1 day: hourly records and EPW bytes'
+               % (', '.join(cfgs), reps, '/'.join(seeds), ', '.join(sim_cfgs)), mismatches=bad,
+               branches={'in-process': (reps + 1) * len(cfgs), 'processes': len(seeds) * len(cfgs)})
+
+
 def run_full(cfg, outdir, name):
     m = U.new_model(outdir=outdir, outname=name, **cfg)
     with core.quiet():
@@ -201,5 +309,6 @@ def run(chk):
                'full generate;simulate;write_epw of the same parameters: isolated, repeated, interleaved with a '
                'different model, and in fresh processes under different PYTHONHASHSEEDs; written file bytes and '
                'hourly records must be identical', mismatches=bad)
+    custom_vector_purity(chk, work)
     chk.assumptions.append('CPython, pickle and the OS are trusted; the theorem is about the abstract world '
                            'machine, its worth is the frame check (static scan + dynamic monitor)')
